@@ -468,3 +468,34 @@ Print Assumptions C14_good_reachable_with_normalize.
 Print Assumptions C14_order_inv_reachable_with_normalize.
 Print Assumptions C14_keys_after_any_history_with_normalize.
 Print Assumptions C14_normalize_example.
+
+(** ** histories that contain calls on the read-only maps of a document type (Model/DomReadOnly.v; see Properties/C13.v):
+    such a call changes nothing, the order invariant holds along the extended histories [xop] *)
+From XmlRs Require Import Model.DomReadOnly Proofs.DomReadOnly Proofs.DomReadOnlyC14.
+
+Theorem C14_good_reachable_with_readonly : forall init xs, WGood init -> WGood (run_x init xs).
+Proof. exact good_reachable_with_readonly. Qed.
+
+Theorem C14_order_inv_reachable_with_readonly :
+  forall init xs k s, WGood init -> doc_at (run_x init xs) k = Some s -> OrderInv s.
+Proof. exact order_inv_reachable_with_readonly. Qed.
+
+Theorem C14_keys_after_any_history_with_readonly :
+  forall init xs k s, WGood init -> doc_at (run_x init xs) k = Some s ->
+    Walk s (sroot s) (preorder s)
+    /\ (forall x, In x (preorder s) <-> attached s x)
+    /\ (forall x, attached s x -> Store.key s x <> 0)
+    /\ (forall l1 x l2 y l3, preorder s = l1 ++ x :: l2 ++ y :: l3 -> Store.key s x < Store.key s y)
+    /\ (forall x, ~ attached s x -> Store.key s x = 0).
+Proof. exact keys_after_any_history_with_readonly. Qed.
+
+Example C14_readonly_example :
+  WGood ro_world
+  /\ forall s, doc_at (run_x ro_world ro_ops) 0 = Some s ->
+       OrderInv s /\ map (Store.key s) [1; 2; 3; 4] = [1; 0; 2; 3].
+Proof. split; [exact ro_good | exact ro_example_keys]. Qed.
+
+Print Assumptions C14_good_reachable_with_readonly.
+Print Assumptions C14_order_inv_reachable_with_readonly.
+Print Assumptions C14_keys_after_any_history_with_readonly.
+Print Assumptions C14_readonly_example.
